@@ -3,7 +3,7 @@
    Run.Inst_Escape holds the instance obligations (generated tables = reference tables). *)
 From Coq Require Import String List Bool ZArith.
 From LNML Require Import Lib.Dec Model.Escape Proofs.EscapeP.
-From Run Require Import Gen_Escape Inst_Escape.
+From Run Require Import Gen_Escape Inst_Escape Inst_EscapeNum.
 
 (* attribute values: every string without TAB, CR and non-XML control characters; < > & both quotes and newline included *)
 Theorem C01_attr : forall s, attr_safe s = true -> attr_parse (gen_quote_attrib s) = Some s.
@@ -14,30 +14,41 @@ Theorem C01_attr_printable : forall s, printable s = true -> attr_parse (gen_quo
 Proof. exact (attr_roundtrip_printable_gen _ _ gen_attrib_repl_is_ref gen_attrib_decision_is_ref). Qed.
 Print Assumptions C01_attr_printable.
 
+(* the hypothesis is exact: a string survives as an attribute value if and only if it is attr_safe *)
+Theorem C01_attr_exact : forall s, attr_parse (gen_quote_attrib s) = Some s <-> attr_safe s = true.
+Proof. exact (attr_roundtrip_iff_gen _ _ gen_attrib_repl_is_ref gen_attrib_decision_is_ref). Qed.
+Print Assumptions C01_attr_exact.
+
 (* element text: CR excluded; "<![CDATA[" must not occur *)
 Theorem C01_text : forall s, text_safe s = true -> no_cdata_open s = true -> text_parse (gen_quote_xml s) = Some s.
-Proof. exact (text_roundtrip_gen _ gen_xml_repl_is_ref). Qed.
+Proof. exact (text_roundtrip_gen _ _ _ _ gen_xml_repl_is_ref gen_quote_xml_body_is_ref gen_cdata_regex_is_ref). Qed.
 Print Assumptions C01_text.
 
 (* stronger: only a complete <![CDATA[ ... ]]> section is excluded *)
 Theorem C01_text_strong : forall s, text_safe s = true -> no_cdata_section s = true -> text_parse (gen_quote_xml s) = Some s.
-Proof. exact (text_roundtrip_strong_gen _ gen_xml_repl_is_ref). Qed.
+Proof. exact (text_roundtrip_strong_gen _ _ _ _ gen_xml_repl_is_ref gen_quote_xml_body_is_ref gen_cdata_regex_is_ref). Qed.
 Print Assumptions C01_text_strong.
 
 Theorem C01_text_printable : forall s, printable s = true -> no_cdata_section s = true -> text_parse (gen_quote_xml s) = Some s.
-Proof. exact (text_roundtrip_printable_gen _ gen_xml_repl_is_ref). Qed.
+Proof. exact (text_roundtrip_printable_gen _ _ _ _ gen_xml_repl_is_ref gen_quote_xml_body_is_ref gen_cdata_regex_is_ref). Qed.
 Print Assumptions C01_text_printable.
+
+(* among strings without a complete CDATA section exactly the text_safe ones survive as element text *)
+Theorem C01_text_exact : forall s, no_cdata_section s = true ->
+  (text_parse (gen_quote_xml s) = Some s <-> text_safe s = true).
+Proof. exact (text_roundtrip_iff_gen _ _ _ _ gen_xml_repl_is_ref gen_quote_xml_body_is_ref gen_cdata_regex_is_ref). Qed.
+Print Assumptions C01_text_exact.
 
 (* the hypothesis cannot be dropped: quote_xml leaves complete CDATA sections unescaped (known finding) *)
 Theorem C01_text_cdata_refuted : exists s, printable s = true /\ text_parse (gen_quote_xml s) <> Some s.
-Proof. exact (text_cdata_refuted_gen _ gen_xml_repl_is_ref). Qed.
+Proof. exact (text_cdata_refuted_gen _ _ _ _ gen_xml_repl_is_ref gen_quote_xml_body_is_ref gen_cdata_regex_is_ref). Qed.
 Print Assumptions C01_text_cdata_refuted.
 
 Theorem C01_no_cdata_open_is_not_substring : forall s, no_cdata_open s = true <-> ~ exists a b, s = (a ++ cdata_open ++ b)%string.
 Proof. exact no_cdata_open_spec. Qed.
 Print Assumptions C01_no_cdata_open_is_not_substring.
 
-(* integers: "%d" then int() *)
+(* integers: "%d" then int()  (gds_format_integer / gds_parse_integer are those, by the instance obligation) *)
 Theorem C01_int : forall z, parse_int (fmt_int z) = Some z.
-Proof. exact int_roundtrip. Qed.
+Proof. exact (int_roundtrip_gen _ _ gen_int_format_is_ref). Qed.
 Print Assumptions C01_int.
